@@ -78,7 +78,7 @@ let run line =
             match claim () with
             | Some m -> Some m
             | None ->
-                if n > 70000 then None else
+                if n > 3000 then None else
                 match alloc_one k dest with
                 | None -> None
                 | Some m ->
